@@ -426,7 +426,7 @@ fn gen_schema(rng: &mut Rng) -> Schema {
         let n = cols.len();
         Tab { name, cols, pk, defaults: vec![None; n], rows: vec![] }
     };
-    let kind = *rng.pick(&["chain", "chain", "self", "self", "composite", "composite-reordered", "two-parents", "unique-ref"]);
+    let kind = *rng.pick(&["chain", "chain", "self", "self", "composite", "composite-reordered", "two-parents", "unique-ref", "self-unique-ref"]);
     let mut m = Model { tabs: vec![], fks: vec![] };
     match kind {
         "chain" => {
@@ -451,6 +451,12 @@ fn gen_schema(rng: &mut Rng) -> Schema {
             // the REFERENCES list names the parent's key columns in another order than PRIMARY KEY
             m.tabs = vec![tab("P", vec!["A", "B", "V"], vec![0, 1]), tab("C", vec!["ID", "PB", "PA", "V"], vec![0])];
             m.fks = vec![Fk { child: 1, cols: vec![1, 2], parent: 0, pcols: vec![1, 0], on_delete: act(rng), on_update: act(rng) }];
+        }
+        "self-unique-ref" => {
+            // a hierarchy whose parent link names a UNIQUE code column, not the primary key; the
+            // codes and the ids come from the same small range on purpose
+            m.tabs = vec![tab("T", vec!["ID", "U", "PU"], vec![0])];
+            m.fks = vec![Fk { child: 0, cols: vec![2], parent: 0, pcols: vec![1], on_delete: act(rng), on_update: act(rng) }];
         }
         "two-parents" => {
             m.tabs = vec![tab("P", vec!["ID", "V"], vec![0]), tab("Q", vec!["ID", "V"], vec![0]), tab("C", vec!["ID", "PID", "QID", "V"], vec![0])];
@@ -483,7 +489,7 @@ fn gen_schema(rng: &mut Rng) -> Schema {
             if t.pk == vec![ci] {
                 d.push_str(" PRIMARY KEY");
             }
-            if kind == "unique-ref" && *c == "U" {
+            if (kind == "unique-ref" || kind == "self-unique-ref") && *c == "U" {
                 d.push_str(" UNIQUE");
             }
             if let Some(v) = t.defaults[ci] {
@@ -607,6 +613,16 @@ fn gen_stmt(rng: &mut Rng, m: &Model, next: &mut i64, step: i64) -> (Stmt, &'sta
             let mut rows = vec![];
             for _ in 0..n {
                 rows.push(gen_row(rng, m, t, next));
+            }
+            // self-referencing tables: a later row of the statement sometimes points at an earlier
+            // row of the same statement, by its referenced key or (wrongly) by its primary key
+            for fk in m.fks.iter().filter(|f| f.child == t && f.parent == t && f.cols.len() == 1) {
+                for i in 1..rows.len() {
+                    if rng.chance(1, 3) {
+                        let src = rng.usize(i);
+                        rows[i][fk.cols[0]] = if rng.chance(1, 2) { rows[src][fk.pcols[0]] } else { rows[src][m.tabs[t].pk[0]] };
+                    }
+                }
             }
             (Stmt::Insert { t, rows }, if n > 1 { "insert-multi" } else { "insert" })
         }
